@@ -1237,6 +1237,30 @@ func (w *World) IterOpen(name string) {
 	w.iterNext(label, oi)
 }
 
+// IterOpenSnap starts an ascending iterator over collection name of snapshot
+// i and takes the first item: the reader pins the snapshot's version and must
+// keep delivering it even after the snapshot handle is closed.
+func (w *World) IterOpenSnap(i int, name string) {
+	sn := w.Snaps[i]
+	c := sn.St.GetCollection(name)
+	mc := sn.Exp.Cur.Colls[name]
+	label := fmt.Sprintf("IterOpenSnap(s%d,%s)", i, name)
+	w.begin(label, true, false)
+	w.Trans++
+	if c == nil || mc == nil {
+		w.logf("%s=absent", label)
+		return
+	}
+	keys := mc.SortedKeys()
+	it := c.IterateAscend(LowTarget(mc.Cmp, keys), true)
+	oi := &OpenIter{It: it, Name: name, Exp: keys, ExpV: map[string]RItem{}}
+	for k, v := range mc.Items {
+		oi.ExpV[k] = v
+	}
+	w.Iters = append(w.Iters, oi)
+	w.iterNext(label, oi)
+}
+
 func (w *World) iterNext(label string, oi *OpenIter) {
 	ok := oi.It.Next()
 	if len(oi.Exp) == 0 {
